@@ -28,7 +28,9 @@ Record dtables := {
   t_default : list (string * string);              (* file type -> class of its default formatter *)
   t_mro : list (string * list string);             (* node / edit class -> names along its MRO *)
   t_methods : list ((string * string) * msum);     (* (owner, method) -> summary *)
-  t_emit : list ((string * string * string) * bool);  (* (owner, method, leaf class) -> returns normally *)
+  t_emit : list ((string * string * string) * list (string * bool));
+      (* (owner, method, leaf class) -> scalar class of the value ("int", "bigint", "null", "str-astral", ...)
+         -> did the method return normally on every sample of that scalar class *)
   t_grammar : list (string * (list string * list (string * list string)));
       (* input type -> (classes of the root, class -> classes of its children) *)
   t_subedit : list string;     (* node classes whose edit prints its sub-edits through the same formatter *)
@@ -48,6 +50,7 @@ Record event := {
   e_mro : list string;            (* its MRO as observed *)
   e_is_edit : bool;               (* an Edit (true) or a TreeNode (false) *)
   e_haskids : bool;               (* TreeNode with at least one child *)
+  e_kind : string;                (* scalar class of a leaf's value ("" for containers and edits) *)
   e_res : option (finst * string * string)   (* resolved (instance, method, owner class of the method) *)
 }.
 
